@@ -11,7 +11,9 @@ projection / as the verb of Each and Over / from Python, call the handle with 0.
 interpreter executes each history with instrumented callables (every invocation logs the arguments it received and whether it
 got the interpreter; the return value is fresh per invocation); the recorded logs and results are judged by TLC against PyAbs.
 """
+import functools
 import json
+import types
 import os
 import random
 
@@ -87,9 +89,28 @@ class Callable:
                 return [None, None, lambda klong, y, x: body(klong, y, x), lambda klong, z, x, y: body(klong, z, x, y)][ar]
             return [None, None, lambda y, x: body(None, y, x), lambda z, x, y: body(None, z, x, y)][ar]
         if kl:
-            return [lambda klong: body(klong), lambda klong, x: body(klong, x), lambda klong, x, y: body(klong, x, y),
-                    lambda klong, x, y, z: body(klong, x, y, z)][ar]
-        return [lambda: body(None), lambda x: body(None, x), lambda x, y: body(None, x, y), lambda x, y, z: body(None, x, y, z)][ar]
+            plain = [lambda klong: body(klong), lambda klong, x: body(klong, x), lambda klong, x, y: body(klong, x, y),
+                     lambda klong, x, y, z: body(klong, x, y, z)][ar]
+        else:
+            plain = [lambda: body(None), lambda x: body(None, x), lambda x, y: body(None, x, y), lambda x, y, z: body(None, x, y, z)][ar]
+        # the property speaks of "a Python callable whose parameters are among x, y, z": the kind of callable object varies with the id
+        shape = SHAPES[cid % len(SHAPES)]
+        if shape == "lambda":
+            return plain
+        if shape == "decorated":              # a function behind a functools.wraps decorator: its signature is that of the wrapped function
+            @functools.wraps(plain)
+            def inner(*a, **kw):
+                return plain(*a, **kw)
+            return inner
+        params = (["klong"] if kl else []) + list("xyz"[:ar])
+        ns = {"body": body}
+        exec(f"def lead({', '.join(['first'] + params)}): return body({'klong' if kl else 'None'}{''.join(', ' + q for q in 'xyz'[:ar])})", ns)
+        if shape == "method":                  # a bound method
+            return types.MethodType(ns["lead"], object())
+        return functools.partial(ns["lead"], "tag")   # a partial application with the leading parameter fixed
+
+
+SHAPES = ["lambda", "decorated", "method", "partial"]
 
 
 def call_source(n, form, a):
@@ -128,7 +149,7 @@ def execute(hist):
                 shown[-1] = f"klong[{e['n']!r}] = {e['v']}"
                 k[e["n"]] = pyval(e["v"])
             elif op == "setpy":
-                shown[-1] = f"klong[{e['n']!r}] = <callable #{e['id']} ({'klong, ' if e['kl'] else ''}{', '.join('xyz'[:e['ar']])}){' raising' if e.get('rz') else ''}{' declared in another order' if e.get('perm') and e['ar'] >= 2 else ''}>"
+                shown[-1] = f"klong[{e['n']!r}] = <callable #{e['id']} ({'klong, ' if e['kl'] else ''}{', '.join('xyz'[:e['ar']])}){' raising' if e.get('rz') else ''}{' declared in another order' if e.get('perm') and e['ar'] >= 2 else ', a ' + SHAPES[e['id'] % len(SHAPES)]}>"
                 k[e["n"]] = fac.make(e["id"], e["ar"], e["kl"], e.get("rz", False), e.get("perm", False))
             elif op == "defkg":
                 shown[-1] = f"{e['n']}::{BODIES[e['body']]}"
@@ -218,6 +239,15 @@ def run(tier, seed):
     if rk.violated:
         vd.violation({"what": f"design-level: PyGen.tla violates {rk.violated}", "counterexample": rk.cex[:4000]})
     hists += [p for p in rk.prints if isinstance(p, list)]
+    # handle life cycle, exhaustive: define / take the handle / delete / call while deleted / redefine with the other arity / call
+    rh = run_tlc(mod, cfg("tree_hd.cfg", ["f"], ["1"], 6 if not thorough else 7, theme="hd", ints=(1,)), workers=1, timeout=7200)
+    ev.add_tlc(f"PyGen.tla theme hd: all histories of {6 if not thorough else 7} operations over two bodies of different arity "
+               "(define / handle / delete / call the handle, also while its name is deleted / redefine), all replayed", rh)
+    if rh.violated:
+        vd.violation({"what": f"design-level: PyGen.tla violates {rh.violated}", "counterexample": rh.cex[:4000]})
+    hd = [p for p in rh.prints if isinstance(p, list)]
+    ev.cov["handle_life_cycle_histories"] = len(hd)
+    hists += hd
     nsim = 3000 if not thorough else 30000
     r2 = run_tlc(mod, cfg("sim.cfg", ["f", "g"], ARGT, 8, maxid=4), workers=1, simulate=f"num={nsim // 3}", depth=9, seed=seed + 3, timeout=7200)
     ev.add_tlc(f"PyGen.tla -simulate num={nsim // 3}: histories of 8 operations on two names ({nsim} of the emitted histories replayed)", r2)
